@@ -35,6 +35,9 @@ CLAIMS = {
  "C16": ("must-pass-through (bind -> ResetParams on every exit, deferred or direct) + comma-ok lookup discipline on the statement map",
          "Decides 'a failed execution leaves no bound value behind' (every exit after binding passes ResetParams) and 'commands on unknown ids fail'. Long-data interleaving values are not covered.",
          "Writers of Stmt.args are the frozen who-may-write table.", "§4 C16"),
+ "C17": ("error-edge must-pass + edge dominance + def-use in doMultiStmts",
+         "Decides one clause only: the first failing statement stops execution, intermediate results are written only for pieces that succeeded, every piece goes through doQuery and the pieces are the splitter's result in order. Where statement boundaries lie (semicolons inside strings, identifiers, comments; empty statements) is a language question over all texts and is not decided.",
+         "", "§9 C17"),
  "C18": ("who-may-call tables + edge dominance + ownership typestate (pcflow) over SSA",
          "Structure only: a single acquisition layer, replicas unreachable inside a transaction, one master connection per slice stored under the slice key under txLock, commit/rollback drain exactly the transaction map. Backend transaction state and histories are not covered.",
          "Interface calls resolved by types; mocks excluded by file name.", "§4 C18"),
@@ -91,7 +94,6 @@ NA = {
  "C13": "Value equality per column type between text and binary protocol rows.",
  "C14": "Agreement of the hand-written placeholder scanner with the SQL lexer over all texts (language equivalence over inputs).",
  "C15": "Quantifies over byte values of parameters and sql_mode; escaping correctness is a fact about string contents.",
- "C17": "Statement splitting versus the grammar over all texts (language equivalence over inputs).",
  "C29": "Credential-to-namespace mapping across reloads depends on string contents (':' in passwords) and reload histories; the authentication gate itself is checked under C35.",
  "C30": "Equality with the mysql_native_password / caching_sha2 scrambles for all salts and passwords is a cryptographic value property.",
  "C36": "Metamorphic equality of the fingerprint over statement variants is a property of string transformations.",
